@@ -141,3 +141,18 @@ Proof. vm_compute. split; reflexivity. Qed.
 (* an untyped rune trait was in no codec family *)
 Lemma rune_orig : extract_underlying_orig BUntypedRune = KUnknown /\ extract_underlying BUntypedRune = KInt64.
 Proof. split; reflexivity. Qed.
+
+(* two parsable traits with equal cells on one line: the constant listed twice in one `case`
+   (before fix C12-parsable-equal-cells); the repaired ParsableValuesOf lists it once and
+   Parse<T>(10) returns the owning value *)
+Definition w_equal : defn :=
+  {| d_ty := ety_int;
+     d_consts := [ {| c_name := "Ua"; c_val := 0; c_dep := false; c_cells := [icell "_Wa" 10; icell "_Wb" 10] |};
+                   {| c_name := "Ub"; c_val := 1; c_dep := false; c_cells := [icell "_" 11; icell "_" 12] |} ];
+     d_types := int_types |}.
+Lemma equal_cells_orig :
+  is_builderr (gen_orig w_equal (opts_with ["Wa"; "Wb"])) = true
+  /\ exists t, gen w_equal (opts_with ["Wa"; "Wb"]) = Built t
+               /\ sem_parse t {| dty := "int"; dval := PInt 10 |} = Some 0
+               /\ sem_parse t {| dty := "int"; dval := PInt 12 |} = Some 1.
+Proof. split; [vm_compute; reflexivity|]. eexists. split; [vm_compute; reflexivity|]. vm_compute. split; reflexivity. Qed.
